@@ -83,49 +83,49 @@ type World struct {
 
 // Spec holds the drawn genesis parameters (plain data so that it can be logged).
 type Spec struct {
-	NEntities        int      `json:"entities"`
-	NodesPerEntity   []int    `json:"nodes_per_entity"`
-	NodeRoles        [][]int  `json:"node_roles"` // per entity, per node: 1 validator, 2 compute, 3 both
-	NUsers           int      `json:"users"`
-	EpochInterval    int64    `json:"epoch_interval"`
-	DebondingIv      uint64   `json:"debonding_interval"`
-	MaxNodeExp       uint64   `json:"max_node_expiration"`
-	MaxValidators    int      `json:"max_validators"`
-	MaxValPerEntity  int      `json:"max_validators_per_entity"`
-	VotingPowerSqrt  bool     `json:"voting_power_sqrt"`
-	SelfStake        []uint64 `json:"self_stake"`    // per entity, base units escrowed to itself
-	SelfShares       []uint64 `json:"self_shares"`   // per entity, shares for that stake (ratio != 1 allowed)
-	General          []uint64 `json:"general"`       // per entity general balance
-	UserBalance      []uint64 `json:"user_balance"`  // per user
-	CommonPool       uint64   `json:"common_pool"`
-	LastBlockFees    uint64   `json:"last_block_fees"`
-	GovDeposits      uint64   `json:"governance_deposits"`
-	ThresholdEntity  uint64   `json:"threshold_entity"`
-	ThresholdNode    uint64   `json:"threshold_node"`
-	FeeWeights       [3]uint64 `json:"fee_weights"`
-	RewardScale      uint64   `json:"reward_scale"`
-	RewardProposed   uint64   `json:"reward_factor_proposed"`
-	RewardSigned     uint64   `json:"reward_factor_signed"`
-	SlashAmount      uint64   `json:"slash_amount"`
-	SlashFreeze      uint64   `json:"slash_freeze"`
-	MinTransact      uint64   `json:"min_transact_balance"`
-	MinTransfer      uint64   `json:"min_transfer"`
-	MinDelegation    uint64   `json:"min_delegation"`
-	MaxAllowances    uint32   `json:"max_allowances"`
-	GasTxByte        uint64   `json:"gas_tx_byte"`
-	GasOp            uint64   `json:"gas_op"`
-	MaxBlockGas      uint64   `json:"max_block_gas"`
-	MaxTxSize        uint64   `json:"max_tx_size"`
-	GovVotingPeriod  uint64   `json:"gov_voting_period"`
-	GovStakeThresh   uint8    `json:"gov_stake_threshold"`
-	GovMinDeposit    uint64   `json:"gov_min_deposit"`
-	CommissionBound  bool     `json:"commission_bounds"`
-	WithRuntime      bool     `json:"with_runtime"`
-	RtGroup          uint16   `json:"rt_group"`
-	RtBackup         uint16   `json:"rt_backup"`
-	RtStragglers     uint16   `json:"rt_stragglers"`
-	RtRoundTimeout   int64    `json:"rt_round_timeout"`
-	WithVault        bool     `json:"with_vault"`
+	NEntities        int         `json:"entities"`
+	NodesPerEntity   []int       `json:"nodes_per_entity"`
+	NodeRoles        [][]int     `json:"node_roles"` // per entity, per node: 1 validator, 2 compute, 3 both
+	NUsers           int         `json:"users"`
+	EpochInterval    int64       `json:"epoch_interval"`
+	DebondingIv      uint64      `json:"debonding_interval"`
+	MaxNodeExp       uint64      `json:"max_node_expiration"`
+	MaxValidators    int         `json:"max_validators"`
+	MaxValPerEntity  int         `json:"max_validators_per_entity"`
+	VotingPowerSqrt  bool        `json:"voting_power_sqrt"`
+	SelfStake        []uint64    `json:"self_stake"`   // per entity, base units escrowed to itself
+	SelfShares       []uint64    `json:"self_shares"`  // per entity, shares for that stake (ratio != 1 allowed)
+	General          []uint64    `json:"general"`      // per entity general balance
+	UserBalance      []uint64    `json:"user_balance"` // per user
+	CommonPool       uint64      `json:"common_pool"`
+	LastBlockFees    uint64      `json:"last_block_fees"`
+	GovDeposits      uint64      `json:"governance_deposits"`
+	ThresholdEntity  uint64      `json:"threshold_entity"`
+	ThresholdNode    uint64      `json:"threshold_node"`
+	FeeWeights       [3]uint64   `json:"fee_weights"`
+	RewardScale      uint64      `json:"reward_scale"`
+	RewardProposed   uint64      `json:"reward_factor_proposed"`
+	RewardSigned     uint64      `json:"reward_factor_signed"`
+	SlashAmount      uint64      `json:"slash_amount"`
+	SlashFreeze      uint64      `json:"slash_freeze"`
+	MinTransact      uint64      `json:"min_transact_balance"`
+	MinTransfer      uint64      `json:"min_transfer"`
+	MinDelegation    uint64      `json:"min_delegation"`
+	MaxAllowances    uint32      `json:"max_allowances"`
+	GasTxByte        uint64      `json:"gas_tx_byte"`
+	GasOp            uint64      `json:"gas_op"`
+	MaxBlockGas      uint64      `json:"max_block_gas"`
+	MaxTxSize        uint64      `json:"max_tx_size"`
+	GovVotingPeriod  uint64      `json:"gov_voting_period"`
+	GovStakeThresh   uint8       `json:"gov_stake_threshold"`
+	GovMinDeposit    uint64      `json:"gov_min_deposit"`
+	CommissionBound  bool        `json:"commission_bounds"`
+	WithRuntime      bool        `json:"with_runtime"`
+	RtGroup          uint16      `json:"rt_group"`
+	RtBackup         uint16      `json:"rt_backup"`
+	RtStragglers     uint16      `json:"rt_stragglers"`
+	RtRoundTimeout   int64       `json:"rt_round_timeout"`
+	WithVault        bool        `json:"with_vault"`
 	CrossDelegations [][3]uint64 `json:"cross_delegations"` // (from user idx, to entity idx, amount)
 	Debonding        [][3]uint64 `json:"debonding"`         // (from user idx, to entity idx, amount) at epoch base+1..
 }
@@ -180,13 +180,13 @@ func BuildGenesis(spec *Spec) (*World, error) {
 				registry.GovernanceEntity: true,
 			},
 			GasCosts: transaction.Costs{
-				registry.GasOpRegisterEntity:   transaction.Gas(spec.GasOp),
-				registry.GasOpDeregisterEntity: transaction.Gas(spec.GasOp),
-				registry.GasOpRegisterNode:     transaction.Gas(spec.GasOp),
-				registry.GasOpUnfreezeNode:     transaction.Gas(spec.GasOp),
-				registry.GasOpRegisterRuntime:  transaction.Gas(spec.GasOp),
+				registry.GasOpRegisterEntity:          transaction.Gas(spec.GasOp),
+				registry.GasOpDeregisterEntity:        transaction.Gas(spec.GasOp),
+				registry.GasOpRegisterNode:            transaction.Gas(spec.GasOp),
+				registry.GasOpUnfreezeNode:            transaction.Gas(spec.GasOp),
+				registry.GasOpRegisterRuntime:         transaction.Gas(spec.GasOp),
 				registry.GasOpRuntimeEpochMaintenance: transaction.Gas(spec.GasOp),
-				registry.GasOpProveFreshness:   transaction.Gas(spec.GasOp),
+				registry.GasOpProveFreshness:          transaction.Gas(spec.GasOp),
 			},
 		},
 	}
@@ -208,11 +208,11 @@ func BuildGenesis(spec *Spec) (*World, error) {
 				governance.GasOpSubmitProposal: transaction.Gas(spec.GasOp),
 				governance.GasOpCastVote:       transaction.Gas(spec.GasOp),
 			},
-			MinProposalDeposit:        q(spec.GovMinDeposit),
-			VotingPeriod:              beacon.EpochTime(spec.GovVotingPeriod),
-			StakeThreshold:            spec.GovStakeThresh,
-			UpgradeMinEpochDiff:       beacon.EpochTime(spec.GovVotingPeriod + 2),
-			UpgradeCancelMinEpochDiff: beacon.EpochTime(spec.GovVotingPeriod + 2),
+			MinProposalDeposit:             q(spec.GovMinDeposit),
+			VotingPeriod:                   beacon.EpochTime(spec.GovVotingPeriod),
+			StakeThreshold:                 spec.GovStakeThresh,
+			UpgradeMinEpochDiff:            beacon.EpochTime(spec.GovVotingPeriod + 2),
+			UpgradeCancelMinEpochDiff:      beacon.EpochTime(spec.GovVotingPeriod + 2),
 			EnableChangeParametersProposal: true,
 			AllowVoteWithoutEntity:         true,
 			AllowProposalMetadata:          true,
@@ -221,7 +221,7 @@ func BuildGenesis(spec *Spec) (*World, error) {
 	doc.RootHash = roothash.Genesis{
 		Parameters: roothash.ConsensusParameters{
 			GasCosts: transaction.Costs{
-				roothash.GasOpComputeCommit: transaction.Gas(spec.GasOp),
+				roothash.GasOpComputeCommit:   transaction.Gas(spec.GasOp),
 				roothash.GasOpProposerTimeout: transaction.Gas(spec.GasOp),
 				roothash.GasOpEvidence:        transaction.Gas(spec.GasOp),
 				roothash.GasOpSubmitMsg:       transaction.Gas(spec.GasOp),
@@ -248,7 +248,7 @@ func BuildGenesis(spec *Spec) (*World, error) {
 	if spec.WithVault {
 		doc.Vault = &vault.Genesis{
 			Parameters: vault.ConsensusParameters{
-				Enabled:             true,
+				Enabled:               true,
 				MaxAuthorityAddresses: 8,
 				GasCosts: transaction.Costs{
 					vault.GasOpCreate:          transaction.Gas(spec.GasOp),
@@ -286,17 +286,17 @@ func BuildGenesis(spec *Spec) (*World, error) {
 			MinCommissionRate:  q(0),
 		},
 		Slashing: map[staking.SlashReason]staking.Slash{
-			staking.SlashConsensusEquivocation: {Amount: q(spec.SlashAmount), FreezeInterval: beacon.EpochTime(spec.SlashFreeze)},
+			staking.SlashConsensusEquivocation:      {Amount: q(spec.SlashAmount), FreezeInterval: beacon.EpochTime(spec.SlashFreeze)},
 			staking.SlashConsensusLightClientAttack: {Amount: q(spec.SlashAmount), FreezeInterval: beacon.EpochTime(spec.SlashFreeze)},
 		},
 		GasCosts: transaction.Costs{
-			staking.GasOpTransfer:      transaction.Gas(spec.GasOp),
-			staking.GasOpBurn:          transaction.Gas(spec.GasOp),
-			staking.GasOpAddEscrow:     transaction.Gas(spec.GasOp),
-			staking.GasOpReclaimEscrow: transaction.Gas(spec.GasOp),
+			staking.GasOpTransfer:                transaction.Gas(spec.GasOp),
+			staking.GasOpBurn:                    transaction.Gas(spec.GasOp),
+			staking.GasOpAddEscrow:               transaction.Gas(spec.GasOp),
+			staking.GasOpReclaimEscrow:           transaction.Gas(spec.GasOp),
 			staking.GasOpAmendCommissionSchedule: transaction.Gas(spec.GasOp),
-			staking.GasOpAllow:         transaction.Gas(spec.GasOp),
-			staking.GasOpWithdraw:      transaction.Gas(spec.GasOp),
+			staking.GasOpAllow:                   transaction.Gas(spec.GasOp),
+			staking.GasOpWithdraw:                transaction.Gas(spec.GasOp),
 		},
 		MinDelegationAmount:       q(spec.MinDelegation),
 		MinTransferAmount:         q(spec.MinTransfer),
